@@ -1577,6 +1577,7 @@ def generic_rules(prop, index, rep):
         nc_ = exception_ctor_rule(index, rep, rid9, mods)
         nc_ += unraised_exception_rule(index, rep, rid9, mods)
         nc_ += self_call_binds_rule(index, rep, rid9, mods)
+        nc_ += star_args_collision_rule(index, rep, rid9, mods)
         rep.ob(rid9, "src/dendropy", "%d constructions of repository exception classes examined" % nc_, True, nontrivial=nc_ > 0)
     rid2 = "R%s.V" % prop[1:]
     rep.rule(rid2, "right variable in nested loops: an inner loop over a collection derived from the outer item uses its own item")
@@ -2347,6 +2348,34 @@ def self_call_binds_rule(index, rep, rid, modules):
                 why = "; ".join(x for x in ["`%s` gets two values (positionally and by keyword)" % dup[0] if dup else "", "no parameter %s" % badkw if badkw else "", "too many positional arguments" if toomany else "", "required %s not given" % missing if missing else ""] if x)
                 rep.check(not (badkw or toomany or dup or missing), rid, f.qualname, "`%s` cannot bind its arguments" % norm(c.func), fn_where(f, c), "",
                           "%s calls `%s`, which resolves to %s(%s): %s - the call raises TypeError whenever it is reached" % (f.qualname, norm(c)[:70], k.qualname, ", ".join(names), why))
+    return n
+
+
+def star_args_collision_rule(index, rep, rid, modules):
+    """positional arguments handed on with `*args` have somewhere to go: a call `f(name=value, *args)` whose callee
+    (resolved) takes `name` as its FIRST positional parameter gives that parameter two values as soon as args is not
+    empty - although the callee is written to accept further positionals."""
+    n = 0
+    for m in modules:
+        for f in index.functions_in_module(m):
+            for c in calls_in(f.node, nested=True):
+                if not any(isinstance(x, ast.Starred) for x in c.args) or not any(k.arg for k in c.keywords):
+                    continue
+                grade, cands = index.resolve_call(c, f)
+                cs = [x for x in cands if hasattr(x, "node") and isinstance(x.node, ast.FunctionDef)]
+                if len(cs) != 1 or grade not in ("static", "self"):
+                    continue
+                k = cs[0]
+                a = k.node.args
+                pos = [x.arg for x in a.posonlyargs + a.args]
+                if k.cls is not None and not any("staticmethod" in norm(d) for d in k.node.decorator_list):
+                    pos = pos[1:]
+                n += 1
+                lead = len([x for x in c.args if not isinstance(x, ast.Starred)])
+                takes_more = a.vararg is not None or len(pos) > lead + 1
+                hit = [kw.arg for kw in c.keywords if kw.arg and lead < len(pos) and kw.arg == pos[lead]]
+                rep.check(not (hit and takes_more), rid, f.qualname, "`%s=` together with *args" % (hit[0] if hit else ""), fn_where(f, c), "",
+                          "%s calls `%s`: `%s` is the first positional parameter of %s, so the first element of *args lands on it as well - any call that passes a positional argument through fails with TypeError: got multiple values for argument '%s'" % (f.qualname, norm(c)[:70], hit[0] if hit else "", k.qualname, hit[0] if hit else ""))
     return n
 
 
